@@ -142,9 +142,15 @@ def _sort(chk):
         ff = FuncFacts.of(fn)
         n = 0
         for st in ff.statements():
-            if not (isinstance(st, ast.Assign) and isinstance(st.targets[0], ast.Name) and st.targets[0].id in ("U", "s", "VT", "V")):
+            # a result of the solver re-bound to a part of itself: x = x[...] / x = x.sel(mode=...)
+            if not (isinstance(st, ast.Assign) and isinstance(st.targets[0], ast.Name)):
                 continue
             v = st.value
+            base = v.value if isinstance(v, ast.Subscript) else (v.func.value if isinstance(v, ast.Call) and isinstance(v.func, ast.Attribute) else None)
+            if not (isinstance(base, ast.Name) and base.id == st.targets[0].id):
+                continue
+            if not any(p.atom.kind == "call" and p.has_op("unpack") for p in ff.paths(base, spine_only=True)):
+                continue  # not one of the unpacked solver results
             slices = []
             if isinstance(v, ast.Subscript):
                 sl = v.slice
@@ -158,6 +164,9 @@ def _sort(chk):
             elif isinstance(v, ast.Call) and isinstance(v.func, ast.Attribute) and v.func.attr == "sel":
                 kw = call_kwargs(v)
                 m = kw.get("mode")
+                if m is not None:
+                    from .common import inline_locals
+                    m = inline_locals(ff, m)
                 if isinstance(m, ast.Call) and isinstance(m.func, ast.Name) and m.func.id == "slice":
                     n += 1
                     ok = len(m.args) == 2 and isinstance(m.args[0], ast.Constant) and m.args[0].value == 1
